@@ -83,6 +83,10 @@ func tryRun(w *W, idx int, prop int) {
 		trySliceFetcher(w, r, prop)
 		return
 	}
+	if k%13 == 10 {
+		tryRCOLoop(w, r, prop)
+		return
+	}
 	var names []string
 	if prop == 5 {
 		names = []string{"skeleton", "two-leaf", "mixed", "skeleton", "two-leaf", "deciding-late"}
@@ -577,7 +581,7 @@ func c04Floors(m *Merged, tier string) []string {
 	if m.C("programs_all_splits_of_5_vars") < 1 {
 		unmet = append(unmet, "no program with 5 variables and all splits")
 	}
-	for _, c := range []string{"all_available_cases", "covering_pairs_definite", "completions_succeeding"} {
+	for _, c := range []string{"all_available_cases", "covering_pairs_definite", "completions_succeeding", "rco_loop_rounds", "unavailable_marked_by_dne_value"} {
 		if m.C(c) == 0 {
 			unmet = append(unmet, c+" = 0")
 		}
@@ -595,6 +599,11 @@ func c05Floors(m *Merged, tier string) []string {
 	}
 	if m.C("tryevalbool_errdne") == 0 || m.C("kleene_dne") == 0 {
 		unmet = append(unmet, "no undecided (DNE) case observed")
+	}
+	for _, c := range []string{"rco_loop_rounds", "rco_loops_with_nil_values", "unavailable_marked_by_dne_value"} {
+		if m.C(c) == 0 {
+			unmet = append(unmet, c+" = 0")
+		}
 	}
 	return unmet
 }
@@ -766,4 +775,160 @@ func trySliceFetcher(w *W, r *rand.Rand, prop int) {
 			}
 		}
 	}
+}
+
+// tryRCOLoop: the remote-call loop as the library's documentation describes it, on the library's own map-backed context:
+// TryEval; while the answer is DNE fetch another variable, store it with Set, TryEval again on the same context. A fetched
+// value may be nil (an absent field): the equality operators accept it. After every round the answer is judged against
+// three-valued evaluation over what has been stored so far (C05) and against the first definite answer (C04).
+func tryRCOLoop(w *W, r *rand.Rand, prop int) {
+	strs := []string{"s0", "s1", "s2"}
+	var gen func(d int) *Node
+	leaf := func() *Node {
+		switch r.Intn(5) {
+		case 0:
+			return Var(fmt.Sprintf("b%d", r.Intn(3)), TBool)
+		case 1:
+			return Op([]string{">", "<", "ge", "!="}[r.Intn(4)], TBool, Var(fmt.Sprintf("i%d", r.Intn(3)), TInt), Lit(int64(r.Intn(5)-2)))
+		case 2:
+			return Op([]string{"eq", "ne", "=", "!="}[r.Intn(4)], TBool, Var(strs[r.Intn(3)], TStr), Lit([]string{"ads", "root", ""}[r.Intn(3)]))
+		case 3:
+			return Op([]string{"eq", "ne"}[r.Intn(2)], TBool, Var(strs[r.Intn(3)], TStr), Var(strs[r.Intn(3)], TStr))
+		default:
+			return Op([]string{"eq", "ne"}[r.Intn(2)], TBool, Lit([]string{"ads", "x"}[r.Intn(2)]), Var(strs[r.Intn(3)], TStr))
+		}
+	}
+	gen = func(d int) *Node {
+		if d <= 0 || r.Intn(4) == 0 {
+			return leaf()
+		}
+		switch r.Intn(6) {
+		case 0:
+			return Op("not", TBool, gen(d-1))
+		case 1:
+			return If(gen(d-1), gen(d-1), gen(d-1))
+		default:
+			n := 2 + r.Intn(3)
+			ch := make([]*Node, n)
+			for i := range ch {
+				ch[i] = gen(d - 1)
+			}
+			return Op([]string{"and", "or", "&&", "||"}[r.Intn(4)], TBool, ch...)
+		}
+	}
+	tree := gen(1 + r.Intn(3))
+	if tree.Kind == KVar {
+		tree = Op("and", TBool, tree, leaf()) // a bare variable is not a prefix program
+	}
+	names, _ := tree.Vars()
+	if len(names) == 0 {
+		return
+	}
+	vals := map[string]interface{}{}
+	nilBound := false
+	for _, n := range names {
+		switch n[0] {
+		case 'b':
+			vals[n] = r.Intn(2) == 0
+		case 'i':
+			vals[n] = int64(r.Intn(5) - 2)
+		default:
+			if r.Intn(3) == 0 {
+				vals[n] = nil
+				nilBound = true
+			} else {
+				vals[n] = []string{"ads", "root", "x", ""}[r.Intn(4)]
+			}
+		}
+	}
+	cfg := cfgFor(tree, OptSet(r.Intn(16)), true) // undefined-variable mode: NewCtxFromVars gives a map-backed context
+	v, ok := compileVariant(w, tree, tree.Prefix(), cfg, "rco-loop")
+	if !ok {
+		return
+	}
+	w.Inc("programs")
+	w.Inc("programs_rco-loop")
+	ctx := eval.NewCtxFromVars(v.CC, nil)
+	order := r.Perm(len(names))
+	avail := map[string]bool{}
+	var first *Outcome
+	firstRound := -1
+	for round := 0; round <= len(names); round++ {
+		o := guard(func() (eval.Value, error) { return v.E.TryEval(ctx) })
+		w.Evals++
+		w.Inc("rco_loop_rounds")
+		av := map[string]bool{}
+		var un []string
+		for _, n := range names {
+			av[n] = avail[n]
+			if !avail[n] {
+				un = append(un, n)
+			}
+		}
+		b := Binding{Vals: vals, Avail: av}
+		if o.Panic != nil {
+			w.Fail("panic/"+normPanic(o.Panic)+"@"+panicSite(o.Stack), "TryEval panicked in round %d of the fetch loop: %v\n%s", round, o.Panic, describeCase(v.Src, v.Cfg, b))
+			return
+		}
+		if prop == 5 {
+			kv, kerr := (&Env{Vars: vals, Avail: av, Custom: stdCustom}).Kleene(tree)
+			switch {
+			case kerr != nil:
+				w.Inc("skipped_not_total")
+			case o.Err != nil:
+				w.Fail("tryeval-error-on-total-program/rco-loop", "round %d of the fetch loop (stored so far: %v): TryEval failed with %q, three-valued value %s\n%s", round, availNames(av), o.Err, valText(kv), describeCase(v.Src, v.Cfg, b))
+				return
+			case kv != refDNE && (isDNE(o.V) || !valEq(o.V, kv)):
+				w.Fail("tryeval-less-informative-than-kleene/rco-loop", "round %d of the fetch loop on one NewCtxFromVars context (stored so far with Set: %v): three-valued evaluation gives %s, TryEval returned %s\n%s\ndump: %s", round, availNames(av), valText(kv), o, describeCase(v.Src, v.Cfg, b), oneLine(v.Dump))
+				return
+			case kv != refDNE:
+				w.Inc("kleene_definite")
+				if len(un) > 0 {
+					w.Inc("kleene_definite_with_unavailable")
+					w.Nontrivial(v.Src, v.Cfg.Opts.String(), b.String())
+				}
+			}
+		} else if definite(o) {
+			if first == nil {
+				oc := o
+				first, firstRound = &oc, round
+				if len(un) > 0 {
+					w.Inc("definite_with_unavailable")
+					w.Nontrivial(v.Src, v.Cfg.Opts.String(), b.String())
+				}
+			} else if !valEq(first.V, o.V) {
+				w.Fail("tryeval-contradicted/rco-loop", "TryEval answered %s in round %d of the fetch loop and %s in round %d, after more variables had been stored (%v)\n%s", valText(first.V), firstRound, valText(o.V), round, availNames(av), describeCase(v.Src, v.Cfg, b))
+				return
+			}
+		}
+		if round < len(names) {
+			n := names[order[round]]
+			if err := ctx.Set(eval.UndefinedVarKey, n, vals[n]); err != nil {
+				w.Fail("rco-loop/set-failed", "Set(%q) on a NewCtxFromVars context failed: %v", n, err)
+				return
+			}
+			avail[n] = true
+		}
+	}
+	if nilBound {
+		w.Inc("rco_loops_with_nil_values")
+	}
+	if prop == 4 && first != nil {
+		o := guard(func() (eval.Value, error) { return v.E.Eval(ctx) })
+		w.Evals++
+		if o.Err == nil && o.Panic == nil && !valEq(o.V, first.V) {
+			w.Fail("tryeval-contradicted/rco-loop", "TryEval answered %s in round %d of the fetch loop, Eval on the completed context gives %s\n%s", valText(first.V), firstRound, valText(o.V), describeCase(v.Src, v.Cfg, Binding{Vals: vals}))
+		}
+	}
+}
+
+func availNames(av map[string]bool) []string {
+	var l []string
+	for n, ok := range av {
+		if ok {
+			l = append(l, n)
+		}
+	}
+	sort.Strings(l)
+	return l
 }
